@@ -5,7 +5,7 @@ import ast
 
 from ..cfg import CFG
 from ..pattern import find, pmatch
-from ..core import (kwarg, phase_helpers, AnalysisError, assigned_targets, body_nodes, call_name, dotted, is_self_attr,
+from ..core import (kwarg, params, phase_helpers, AnalysisError, assigned_targets, body_nodes, call_name, dotted, is_self_attr,
                     key_text, names_in, parent, root_name, stmts_of, unparse)
 
 NPC = 'tenpy/linalg/np_conserved.py'
@@ -567,6 +567,9 @@ def run(prog, rep, tier):
              'the dtype of that array')
     if check_wrapped_block_dtype(prog, rep) < 1:
         raise AnalysisError('DTYPE-wrapped-block: the eigenvector wrapping of speigs not found')
+    rep.rule('CHARGE-valid-compare', 'block charges are compared with valid total charges only')
+    if check_valid_compare(prog, rep) < 1:
+        raise AnalysisError('CHARGE-valid-compare: comparison in from_ndarray not found')
     rep.rule('COUPLED-shared-list', 'the list _data, shared with shallow copies, never changes its '
              'length in place (only by re-binding, like _qdata)')
     if check_shared_data_list(prog, rep) < 20:
@@ -829,4 +832,44 @@ def check_wrapped_block_dtype(prog, rep):
                               'dtype `%s`, not `%s.dtype`: when the computation changes the type '
                               '(complex eigenvectors of a real matrix) the tensor fails test_sanity'
                               % (key_text(st)[:50], base.id, D, base.id), st.lineno)
+    return n
+
+
+# ------------------------------------------------------------------ CHARGE-valid-compare
+def check_valid_compare(prog, rep):
+    """CHARGE-valid-compare: `_get_block_charge(..)` returns VALID charges (reduced modulo `mod`).
+    Comparing them with a total-charge value is only meaningful if that value is valid too: the
+    stored `<x>.qtotal` (always valid), `make_valid(..)`, or a local assigned from one of them --
+    never a raw function parameter, of which `[-2]` and `[1]` are the same Z_3 charge."""
+    m = prog.module(NPC)
+    n = 0
+    for q, f in m.functions.items():
+        ps = set(params(f))
+        for c in ast.walk(f):
+            if not (isinstance(c, ast.Compare) and len(c.ops) == 1 and isinstance(
+                    c.ops[0], (ast.Eq, ast.NotEq))):
+                continue
+            sides = [c.left, c.comparators[0]]
+            if not any(isinstance(x, ast.Call) and isinstance(x.func, ast.Attribute) and
+                       x.func.attr == '_get_block_charge' for x in sides):
+                continue
+            other = [x for x in sides if not (isinstance(x, ast.Call) and isinstance(
+                x.func, ast.Attribute) and x.func.attr == '_get_block_charge')][0]
+            n += 1
+            ok = True
+            if isinstance(other, ast.Name) and other.id in ps:
+                # a parameter: valid only if every assignment before the comparison re-binds it
+                # from `.qtotal` / make_valid
+                rebinds = [st for st in stmts_of(f) if isinstance(st, ast.Assign) and any(
+                    isinstance(t, ast.Name) and t.id == other.id for t in st.targets) and
+                    st.lineno < c.lineno and st in f.body]
+                ok = any(unparse(st.value).endswith('.qtotal') or 'make_valid' in unparse(st.value)
+                         for st in rebinds)
+            rep.instance('CHARGE-valid-compare', {'function': q, 'compared_with': unparse(other),
+                                                  'valid': ok})
+            if not ok:
+                rep.violation('CHARGE-valid-compare', m, q, 'raw-parameter:' + unparse(other),
+                              '`%s` compares valid block charges with the raw parameter `%s`: an '
+                              'equivalent representative of the total charge (e.g. [-2] for Z_3 = '
+                              '[1]) matches no block' % (unparse(c)[:60], unparse(other)), c.lineno)
     return n
